@@ -6,6 +6,14 @@ scope   Scope trees, enumerated completely: 2 or 3 nested functions; the innermo
         only); optionally also a module global x; innermost function written as def or lambda; the inner function is
         either called by its definer or returned and called by the outermost function.  Programs CPython refuses to
         compile (nonlocal without binding, ...) are not cases; programs where CPython raises (unbound names) carry no claim.
+names   Name resolution / shadowing chains for ONE name, enumerated completely: the name is x or the builtin name abs;
+        optionally a module global of that name; a chain of 2 or 3 factory functions f1 -> f2 -> f3, each level binding
+        the name as  - (not bound) | param | local; the innermost (def or lambda) returns (name, a real module global).
+        Where the closures come into being:  module (whole chain evaluated natively at module level, only the innermost
+        closure is called in the synthesizable context) | mid (f1 evaluated natively, the f2 closure is called in the
+        context and creates f3 there) | ctx (everything called inside the context) | method (f1 is a method of an object
+        built at module level).  So every combination of local / parameter / enclosing cell / enclosing-enclosing cell /
+        module global / builtin bindings of the same name occurs, for closures made outside and inside the context.
 loop    Functions created in loops / comprehensions reading the loop variable, called inside or after the loop
         (late binding), with and without the default-argument idiom.
 misc    A table of idioms: counters, accumulators via nonlocal, recursion (self / mutual / module level), higher-order
@@ -78,6 +86,65 @@ def scope_cases():
                             continue
                         key = f"clo/scope/d{depth}/{'.'.join(binds)}/{'g' if glob else '-'}/{form}/{invoke}"
                         yield case(key, defs, call)
+
+
+def _names_program(name, glob, binds, where, form):
+    depth = len(binds)
+    lines = ["g2__S__ = 'G2'"]
+    if glob:
+        lines.append(f"{name} = 'g'")
+
+    def arg(level):
+        return f"'p{level}'" if binds[level - 1] == "param" else ""
+
+    def emit(level, ind, fname, first=""):
+        b = binds[level - 1]
+        par = ", ".join(x for x in (first, name if b == "param" else "") if x)
+        last = level == depth
+        if last and form == "lambda" and b != "local" and not first:
+            lines.append(f"{ind}{fname} = lambda {par}: ({name}, g2__S__)")
+            return
+        lines.append(f"{ind}def {fname}({par}):")
+        if b == "local":
+            lines.append(f"{ind}    {name} = 'l{level}'")
+        if last:
+            lines.append(f"{ind}    return ({name}, g2__S__)")
+            return
+        emit(level + 1, ind + "    ", f"f{level + 1}")
+        lines.append(f"{ind}    return f{level + 1}")
+
+    if where == "method":
+        lines.append("class K__S__:")
+        emit(1, "    ", "mk", first="self")
+        lines.append("k__S__ = K__S__()")
+        f1 = "k__S__.mk"
+    else:
+        emit(1, "", "f1__S__")
+        f1 = "f1__S__"
+    chain = [f"({arg(l)})" for l in range(1, depth + 1)]
+    native = {"module": depth - 1, "method": depth - 1, "mid": 1, "ctx": 0}[where]
+    if native:
+        lines.append(f"h__S__ = {f1}{''.join(chain[:native])}")
+        call = "h__S__" + "".join(chain[native:])
+    else:
+        call = f1 + "".join(chain)
+    return "\n".join(lines) + "\n", call
+
+
+def names_cases():
+    for name in (X, "abs"):
+        for glob in (False, True):
+            for depth in (2, 3):
+                for binds in itertools.product(("-", "param", "local"), repeat=depth):
+                    for where in ("module", "mid", "ctx", "method"):
+                        if where == "mid" and depth == 2:
+                            continue  # identical to module
+                        for form in ("def", "lambda"):
+                            if form == "lambda" and binds[-1] == "local":
+                                continue
+                            defs, call = _names_program(name, glob, binds, where, form)
+                            key = f"clo/names/{'x' if name == X else name}/{'g' if glob else '-'}/{'.'.join(binds)}/{where}/{form}"
+                            yield case(key, defs, call, solo=(glob and name == "abs"))
 
 
 LOOP = {
@@ -159,13 +226,14 @@ MISC = {
 
 def cases(thorough):
     yield from scope_cases()
+    yield from names_cases()
     for k, body in LOOP.items():
         yield case(f"clo/loop/{k}", f"def case__S__():\n{body}", "case__S__()")
     for k, body in MISC.items():
         yield case(f"clo/misc/{k}", MISC_PRE + f"def case__S__():\n{body}", "case__S__()")
 
 
-STRIPES = 2
+STRIPES = 6
 
 
 def tasks(thorough, seed):
